@@ -159,6 +159,13 @@ impl SubscriptionActor {
                 _ = deleted => (),
                 _ = poll => (),
             }
+
+            // Refuse further requests, and wait for the ones whose senders had already been
+            // granted room in the mailbox: if the receiver were simply dropped, such a request
+            // would still be put into the (dead) mailbox afterwards and its caller would wait
+            // for an answer forever. Dropping them here makes their callers see a closed mailbox.
+            receiver.close();
+            while receiver.recv().await.is_some() {}
             #[cfg(deltio_verif)]
             crate::verif::emit("s.exit", |_| serde_json::json!({"si": verif_si}));
         });
